@@ -186,7 +186,7 @@ func checkOrder(list []string, glyphs map[string]bool, enc []string) (class, msg
 	}
 	codes := map[string][]int{}
 	for c, name := range enc {
-		if name != ".notdef" && name != "" && glyphs[name] {
+		if name != ".notdef" && glyphs[name] {
 			codes[name] = append(codes[name], c)
 		}
 	}
